@@ -5,14 +5,14 @@ from check import Suite
 from props.commands import *
 
 def gen_histories(tier, rng):
-    n = 2000 if tier == "quick" else 40000
+    n = 2000 if tier == "quick" else 200000
     out = []
     for _ in range(n):
         doc, cfg, steps = make_history(rng, max_steps=8)
         # a no-op first step so that the abstract model starts from the harness' own parse of the file
         first = Step(steps[0].clock, "stop", ["%s" % hx(b"0001-01-01"), hx(b"0:00"), "_", "_"])
         out.append(history_request(doc.render(), cfg, [first] + steps))
-    for _ in range(400 if tier == "quick" else 10000):
+    for _ in range(400 if tier == "quick" else 40000):
         b, cfg, steps = pause_scenario(rng)
         out.append(history_request(b, cfg, steps))
     return out
